@@ -111,6 +111,12 @@ theorem C19_natural_orders_strictWeak :
     · exact .inl e
     · exact .inr (Key.lt_trans _ _ _ e hab)
 
+/-- Go's `<` on floats without NaN (numeric value; `-0` and `+0` tie but can be told apart) is a strict
+    weak order, so `SortOrdered*` on a float instantiation must keep `-0` / `+0` in input order
+    (`C19_sort_stable`), ascending and descending (`C19_sortOrdered_desc`). -/
+theorem C19_float_order_strictWeak : StrictWeak fltLt ∧ equivBy fltLt (0, true) (0, false) = true :=
+  ⟨⟨fun a => by simp [fltLt], fun a b c => by simp [fltLt]; omega, fun a b c => by simp [fltLt]; omega⟩, by decide⟩
+
 /-- Both `CompareTo` implementations (`ComparableOrdered[T]`, `ComparableString`) follow one sign
     convention: negative / zero / positive iff the receiver is naturally before / equal to / after the
     argument.  (The pinned commit had `ComparableOrdered` the other way round.) -/
